@@ -229,7 +229,7 @@ def check_e2e(case, acc):
     if case["phys"] == "TRIPLES":
         pass
     for integ in ("generic", "rdflib"):
-        exp = want if integ == "generic" else [[list(T.norm(T.rdflib_canon(t))) for t in s] for s in case["statements"]]
+        exp = want  # rows are written by the generic encoder; both readers deliver the wire terms unchanged
         for label, data, src in (("delimited", delim, None), ("nondelimited", single, None),
                                  ("delimited", delim, "buffered"), ("delimited", delim, "raw"), ("nondelimited", single, "buffered")):
             try:
